@@ -172,6 +172,14 @@ def check_case(ref, W, fs, s, baseline=None):
         ans[name] = set(r)
     if spilexc or any(v is None for v in ans.values()):
         return out, "exception-shape", ans
+    if baseline is None:
+        # the same data, the same search, asked again through every Finder in the opposite order, nothing reset in
+        # between: what one Finder did with the search must not change what another one answers
+        for name in reversed(list(fs)):
+            st2, r2 = run_finder(fs[name], s)
+            if st2 != "ok" or set(r2) != ans[name]:
+                bad(f"answer-changes-when-asked-again-after-other-finders/{_kind(name)}", [st2, sorted(set(r2 or []))[:4]], sorted(ans[name])[:4])
+                break
     # Finder.find hands a clean, typed, non-search Sid to the Finder as is (FindInAll always unfolds)
     from spil import Sid
     sid = Sid(s)
